@@ -1,0 +1,18 @@
+// Copyright The OpenTelemetry Authors
+// SPDX-License-Identifier: Apache-2.0
+
+//go:build verif
+
+package trace // import "go.opentelemetry.io/otel/sdk/trace"
+
+// VerifPointFn, when set before any processor is used, is called at the named
+// synchronisation points of the batch span processor. It only exists in builds
+// with the verif build tag and lets a verification harness park a goroutine at
+// a chosen point to force an interleaving.
+var VerifPointFn func(name string)
+
+func verifPoint(name string) {
+	if f := VerifPointFn; f != nil {
+		f(name)
+	}
+}
